@@ -83,41 +83,76 @@ def fpFrame (p src len : Nat) (k b0 : Nat) : N2k.Rx.Frame :=
   if b0 % 32 = 0 then mkFrame 6 p src ([b0, len % 256] ++ (List.range 6).map fun j => (j + 2 + k) % 256)
   else mkFrame 6 p src (b0 :: (List.range 7).map fun j => (16 * k + j + 1) % 256)
 
-def tpFrames (p : Nat) : List N2k.Rx.Frame :=
-  [mkFrame 7 60416 0x31 [32, 9, 0, 2, 0xff, p % 256, (p / 256) % 256, (p / 65536) % 256],
-   mkFrame 7 60160 0x31 [1, 1, 2, 3, 4, 5, 6, 7], mkFrame 7 60160 0x31 [2, 8, 9, 0xff, 0xff, 0xff, 0xff, 0xff]]
+/-- announce + every data packet of a `len` byte payload; the last packet carries the TP-receiver input of the model -/
+def tpFrames (p len dst : Nat) : List QFrame :=
+  let src := 0x31
+  let npk := (len + 6) / 7
+  let payload := (List.range len).map fun i => (i * 3 + 1) % 256
+  let cm : N2k.Rx.Frame := N2k.Rx.decode (canId 7 60416 src dst) 8
+    [if dst = 255 then 32 else 16, len % 256, len / 256, npk % 256, 0xff, p % 256, (p / 256) % 256, (p / 65536) % 256]
+  (cm, none) :: (List.range npk).map fun k =>
+    let bytes := (k + 1) % 256 :: (List.range 7).map fun j => if k * 7 + j < len then ((k * 7 + j) * 3 + 1) % 256 else 0xff
+    (N2k.Rx.decode (canId 7 60160 src dst) 8 bytes,
+     if k + 1 = npk then some (⟨7, p, src, dst, len, payload⟩ : N2k.Rx.Msg) else none)
 
-/-- engine state: the composed node model and the harness's virtual clock -/
+/-- engine state: the composed node model, the harness's virtual clock and its hold switches -/
 structure ES where
   n : Node
   now : Nat
+  hold : BusId → Bool
 
 def cfg : BusId → N2k.Rx.Cfg := fun _ => {}
 
-/-- same receive state with the slot maps stored as tables (see `compact`) -/
-def compactRx (rx : BusId → N2k.Rx.St) : BusId → N2k.Rx.St :=
+/-- same receive side with the maps stored as tables (see `compact`) -/
+def compactRx (r : RxSide) : RxSide :=
   let sts := ((List.range nBus).map fun b =>
-    let st := rx b
+    let st := r.st b
     let slots := ((List.range st.N).map st.slot).toArray
     ({ N := st.N, slot := fun j => slots.getD j N2k.Rx.emptySlot } : N2k.Rx.St)).toArray
-  fun b => sts.getD b (N2k.Rx.init 5)
+  let modes := ((List.range nBus).map fun b => ((List.range 8).map (r.mode b)).toArray).toArray
+  let drvs := ((List.range nBus).map r.drv).toArray
+  { st := fun b => sts.getD b (N2k.Rx.init 5), mode := fun b k => (modes.getD b #[]).getD k false, drv := fun b => drvs.getD b [] }
 
-/-- harness `reset`: `FreeMessage()` on every receive slot of both buses -/
-def freeAll (rx : BusId → N2k.Rx.St) : BusId → N2k.Rx.St :=
-  fun b => { rx b with slot := fun j => N2k.Rx.freeSlot ((rx b).slot j) }
+/-- harness `reset`: `FreeMessage()` on every receive slot, driver queues emptied, every mode bit cleared -/
+def resetRx (r : RxSide) : RxSide :=
+  { st := fun b => { r.st b with slot := fun j => N2k.Rx.freeSlot ((r.st b).slot j) }, mode := fun _ _ => false, drv := fun _ => [] }
+
+def sumCalls (calls : List (List Call)) : Nat × List Id :=
+  let cs := calls.flatten
+  ((cs.map (·.cb)).foldl (· + ·) 0, cs.flatMap (·.hs))
 
 /-- run events of the composed model; total callback runs and handlers called -/
 def runEvs (es : ES) (evs : List Ev) : Option (ES × Nat × List Id) :=
   match nodeRun cfg es.n evs with
   | none => none
-  | some (n', calls) =>
-    let cs := calls.filterMap id
-    some ({ es with n := n' }, (cs.map (·.cb)).foldl (· + ·) 0, cs.flatMap (·.hs))
+  | some (n', calls) => some ({ es with n := n' }, sumCalls calls)
 
-/-- `ParseMessages` at the next millisecond with the given frames queued -/
-def deliver (es : ES) (b : BusId) (fs : List N2k.Rx.Frame) (extra : List Ev := []) : Option (ES × Nat × List Id) :=
+def arriveAll (es : ES) (b : BusId) (fs : List QFrame) : Option ES :=
+  (runEvs es (fs.map fun q => Ev.arrive b q.1 q.2)).map (·.1)
+
+/-- one `ParseMessages` at the next millisecond -/
+def pollOnce (es : ES) (b : BusId) : Option (ES × Nat × List Id) :=
   let es1 := { es with now := es.now + 1 }
-  runEvs es1 (fs.map (fun f => Ev.frame b es1.now f) ++ extra)
+  runEvs es1 [Ev.poll b es1.now]
+
+/-- poll until the driver queue of `b` is empty (at least once) -/
+def drain (es : ES) (b : BusId) (c : Nat) (l : List Id) : Nat → Option (ES × Nat × List Id)
+  | 0 => some (es, c, l)
+  | fuel + 1 =>
+    match pollOnce es b with
+    | none => none
+    | some (es', c', l') =>
+      if (es'.n.r.drv b).isEmpty then some (es', c + c', l ++ l') else drain es' b (c + c') (l ++ l') fuel
+
+/-- frames arrive, then (unless the bus is on hold) one poll, or polls until the driver is empty -/
+def after (es : ES) (b : BusId) (fs : List QFrame) (drainAll : Bool) : Option (ES × String) :=
+  match arriveAll es b fs with
+  | none => none
+  | some es1 =>
+    if es1.hold b then some (es1, "queued") else
+    match (if drainAll then drain es1 b 0 [] 1000 else pollOnce es1 b) with
+    | none => none
+    | some (es2, c, l) => some (es2, showCalls (some (c, l)))
 
 def step (s : Option ES) (w : List String) : Option ES × String :=
   match s with
@@ -129,32 +164,37 @@ def step (s : Option ES) (w : List String) : Option ES × String :=
       | some l => if l.length > maxH then (s, "bad-op") else
         -- destroy everything, then `new 0 p0`, `new 1 p1`, ...
         match (reset wd).bind fun w0 => run w0 ((List.range l.length).zip l |>.map fun (h, p) => Op.new h p none) with
-        | some w' => (some { es with n := ⟨w', compactRx (freeAll es.n.rx)⟩ }, "ok")
+        | some w' => (some { es with n := ⟨w', compactRx (resetRx es.n.r)⟩, hold := fun _ => false }, "ok")
         | none => (none, "fault")
       | none => (s, "bad-op")
     | ["msg", b, p] => match bid? b, pgn? p with
-      | some b, some p => match deliver es b [injectFrame p] with
-        | some (es', c, l) => (some es', showCalls (some (c, l)))
+      | some b, some p => match after es b [(injectFrame p, none)] false with
+        | some (es', out) => (some es', out)
         | none => (none, "fault")
       | _, _ => (s, "bad-op")
-    | ["tp", b, p] => match bid? b, pgn? p with
-      | some b, some p => if isTp p then (s, "bad-op") else
-        -- TP.CM(BAM) takes a slot in the receive model; the completion of the transfer by the second TP.DT is the
-        -- model's INPUT event `tpDone`
-        match deliver es b (tpFrames p) [Ev.tpDone b ⟨7, p, 0x31, 255, 9, [1, 2, 3, 4, 5, 6, 7, 8, 9]⟩] with
-        | some (es', c, l) => (some es', showCalls (some (c, l)))
+    | "tp" :: b :: p :: rest => match bid? b, pgn? p, allSome (rest.map nat?) with
+      | some b, some p, some r =>
+        let len := r.getD 0 9
+        let dst := r.getD 1 255
+        if isTp p ∨ r.length > 2 ∨ len < 9 ∨ len > 223 ∨ dst > 255 then (s, "bad-op") else
+        match after es b (tpFrames p len dst) true with
+        | some (es', out) => (some es', out)
         | none => (none, "fault")
-      | _, _ => (s, "bad-op")
-    | ["fp", b, p, src, len, frames, flags] =>
-      -- `flags` (the harness's reference receiver) are not used: completion is decided by the receive model
+      | _, _, _ => (s, "bad-op")
+    | ["fp", b, p, src, len, frames] =>
       match bid? b, pgn? p, nat? src, nat? len, allSome ((frames.splitOn ",").map byte?) with
       | some b, some p, some src, some len, some fr =>
-        let fl := flags.toList
-        if ¬ isFp p ∨ src > 251 ∨ len > 223 ∨ fr.length > 40 ∨ fl.length ≠ fr.length ∨ fl.any (fun c => c ≠ '0' ∧ c ≠ '1') then (s, "bad-op") else
-        let r := ((List.range fr.length).zip fr).foldl (fun (acc : Option (ES × Nat × List Id)) (kb : Nat × Nat) =>
+        if ¬ isFp p ∨ src > 251 ∨ len > 223 ∨ fr.length > 40 then (s, "bad-op") else
+        let qs : List QFrame := ((List.range fr.length).zip fr).map fun kb => (fpFrame p src len kb.1 kb.2, none)
+        if es.hold b then
+          match arriveAll es b qs with
+          | some es' => (some es', "queued")
+          | none => (none, "fault")
+        else
+        let r := qs.foldl (fun (acc : Option (ES × Nat × List Id)) (q : QFrame) =>
           match acc with
           | none => none
-          | some (e, c, l) => match deliver e b [fpFrame p src len kb.1 kb.2] with
+          | some (e, c, l) => match (arriveAll e b [q]).bind fun e1 => pollOnce e1 b with
             | none => none
             | some (e', c', l') => some (e', c + c', l ++ l')) (some (es, 0, []))
         match r with
@@ -167,13 +207,28 @@ def step (s : Option ES) (w : List String) : Option ES × String :=
           (fun (acc : Option (ES × List String)) (pb : Nat × Nat) =>
             match acc with
             | none => none
-            | some (e, out) => match deliver e pb.2 [injectFrame pb.1] with
+            | some (e, out) => match after e pb.2 [(injectFrame pb.1, none)] false with
               | none => none
-              | some (e', c, hs) => some (e', out ++ [showCalls (some (c, hs))])) (some (es, []))
+              | some (e', o) => some (e', out ++ [o])) (some (es, []))
         match r with
         | some (es', out) => (some es', " | ".intercalate out)
         | none => (none, "fault")
       | none => (s, "bad-op")
+    | ["hold", b, v] => match bid? b, nat? v with
+      | some b, some v => if v > 1 then (s, "bad-op") else
+        (some { es with hold := fun x => if x = b then v == 1 else es.hold x }, "ok")
+      | _, _ => (s, "bad-op")
+    | ["poll", b] => match bid? b with
+      | some b => match pollOnce es b with
+        | some (es', c, l) => (some es', showCalls (some (c, l)))
+        | none => (none, "fault")
+      | none => (s, "bad-op")
+    | ["mode", b, bit, v] => match bid? b, nat? bit, nat? v with
+      | some b, some bit, some v => if bit < 1 ∨ bit > 4 ∨ v > 1 then (s, "bad-op") else
+        match runEvs es [Ev.setMode b bit (v == 1)] with
+        | some (es', _) => (some es', "ok")
+        | none => (none, "fault")
+      | _, _, _ => (s, "bad-op")
     | _ => match parseOp w with
       | none => (s, "bad-op")
       | some op =>
@@ -184,6 +239,7 @@ def step (s : Option ES) (w : List String) : Option ES × String :=
         else (s, "bad-op")
 
 /-- both bus objects were polled for 700 ms each before the first op: the virtual clock stands at 1400 -/
-def main : IO Unit := loop step (some ⟨⟨World.init, fun _ => N2k.Rx.init 5⟩, 1400⟩)
+def main : IO Unit :=
+  loop step (some ⟨⟨World.init, ⟨fun _ _ => false, fun _ => N2k.Rx.init 5, fun _ => []⟩⟩, 1400, fun _ => false⟩)
 
 end Driver.Handlers
